@@ -730,6 +730,13 @@ def _untuple(x):
 
 
 def counterexample_ops(res):
+    if not res.trace:
+        # violated by an initial state: TLC prints the state without a numbered trace (no operation needed)
+        import re
+        m = re.search(r'form \|-> "(\w+)"', res.stdout)
+        if "violated by the initial state" not in res.stdout or not m:
+            raise common.MachineryError("no counterexample trace in TLC's output")
+        return m.group(1), [], []
     h = common.parse_tla(res.trace[-1]["vars"]["hist"])
     form = common.parse_tla(res.trace[-1]["vars"]["s"])["form"]
     return form, [_untuple(e["op"]) for e in h], [_untuple(e["st"]) for e in h]
